@@ -1,1 +1,228 @@
-/-! # C13 — property theorems (stub: not built yet) -/
+import PymocaVerif.Lemmas.Attr
+/-!
+# C13 — variable metadata reports the declared attributes
+
+Property theorems about `PymocaVerif.Attr` (model of `_ast_symbols_to_variables`, `Variable` and
+`variable_metadata_function`), for all variables, shapes, expressions and parameter vectors.
+`declEntries v a` is the declared attribute element by element before any coercion;
+`Var.fits` says the declaration is compatible with the variable's type (no truncation of a
+non-integral value to `int`, no number other than 0/1 turned into a `bool`).
+-/
+namespace PymocaVerif.Attr
+
+/-- **Defaults.**  The objects `Variable.__init__` puts there: value NaN, start 0, min -inf,
+    max +inf, nominal 0, fixed false (0). -/
+theorem default_table :
+    defaultNum .value = .nan ∧ defaultNum .start = .fin 0 ∧ defaultNum .min = .ninf ∧
+    defaultNum .max = .pinf ∧ defaultNum .nominal = .fin 0 ∧ defaultNum .fixed = .fin 0 :=
+  ⟨rfl, rfl, rfl, rfl, rfl, rfl⟩
+
+example : casadiAttributes = [.value, .min, .max, .start, .fixed, .nominal] := rfl
+
+/-- **Unspecified attributes take the defaults**, on the `Variable` object and in every row the
+    variable contributes to the metadata matrix; except for `fixed` (which the generator always sets,
+    to the AST's `False`) the default *object* itself is kept (`_DefaultValue` marker, `nan`, …). -/
+theorem defaults_exact (v : Var) (a : AttrName) (h : v.decl a = none) (p : Nat → Rat) :
+    (store v a).values a p = [defaultNum a] ∧
+    (v.column a).map (Entry.eval p) = List.replicate v.numel (defaultNum a) ∧
+    ((a ≠ .fixed ∨ v.isDer = true) → store v a = .dflt) := by
+  have hs : (store v a).entries a = [.const (defaultNum a)] := by
+    unfold store
+    by_cases hd : v.isDer = true
+    · simp [hd, Stored.entries]
+    · simp only [hd, Bool.false_eq_true, if_false, h, Option.orElse]
+      cases a <;> simp [astDefault, Stored.entries, defaultNum] <;>
+        cases v.ptype <;> rfl
+  refine ⟨by simp [Stored.values, hs, Entry.eval], ?_, ?_⟩
+  · simp [Var.column, hs, bcast, Entry.eval]
+  · intro h'
+    unfold store
+    by_cases hd : v.isDer = true
+    · simp [hd]
+    · rcases h' with h' | h'
+      · simp only [hd, Bool.false_eq_true, if_false, h, Option.orElse]
+        cases a <;> simp_all [astDefault]
+      · exact absurd h' hd
+
+example : (store { ptype := .float, dims := [2, 3] } .start).tag .start = "_DefaultValue" ∧
+    (({ ptype := .float, dims := [2, 3] } : Var).column .min).map (Entry.eval fun _ => 0)
+      = List.replicate 6 .ninf := by decide
+
+/-- **Python types are kept.**  A literal attribute of a Real variable is stored as a Python
+    float; an Integer variable keeps `int` literals (and Booleans) as they are, takes an integral
+    real literal as that `int`, and keeps an infinity as the float it is; a Boolean variable keeps
+    Booleans. -/
+theorem types_kept :
+    (∀ v : Py, coerce .float v = .float v.num ∨ ∃ x, v = .float x ∧ coerce .float v = v) ∧
+    (∀ i : Int, coerce .int (.int i) = .int i) ∧
+    (∀ b : Bool, coerce .int (.bool b) = .bool b) ∧
+    (∀ q : Rat, coerce .int (.float (.fin q)) = .int (truncRat q)) ∧
+    (∀ neg : Bool, coerce .int (Lit.inf neg).toPy = (Lit.inf neg).toPy) ∧
+    (∀ b : Bool, coerce .bool (.bool b) = .bool b) := by
+  refine ⟨fun v => ?_, fun _ => rfl, fun _ => rfl, fun _ => rfl, fun neg => by cases neg <;> rfl, fun _ => rfl⟩
+  cases v with
+  | int i => left; rfl
+  | bool b => left; rfl
+  | float x => right; exact ⟨x, rfl, rfl⟩
+
+example : coerce .float (.int 3) = .float (.fin 3) ∧ coerce .int (.bool true) = .bool true := by decide
+
+/-- The coercion never changes the number when the declaration fits the type. -/
+theorem coercion_keeps_value (t : PType) (v : Py) (h : v.fits t) : (coerce t v).num = v.num :=
+  coerce_num t v h
+
+example : (Py.int 1).fits .bool ∧ (Py.float (.fin 3)).fits .int := by
+  refine ⟨fun _ => Or.inr rfl, fun _ => ?_, fun h => by cases h⟩
+  decide
+
+/-- **The Variable attributes equal the declared expressions**, element by element, at every
+    parameter vector (whatever Python object — float, int, bool, list, MX, DM — holds them). -/
+theorem attr_value (v : Var) (a : AttrName) (hfit : v.fits a) (p : Nat → Rat) :
+    (store v a).values a p = (declEntries v a).map (Entry.eval p) := by
+  unfold store declEntries Stored.values
+  by_cases hd : v.isDer = true
+  · simp [hd, Stored.entries]
+  simp only [hd, Bool.false_eq_true, if_false]
+  unfold Var.fits at hfit
+  cases h : v.decl a with
+  | none =>
+    simp only [Option.orElse]
+    cases a <;> simp [astDefault, Stored.entries, defaultNum, Entry.eval] <;> cases v.ptype <;> rfl
+  | some d =>
+    rw [h] at hfit
+    simp only [Option.orElse]
+    cases d with
+    | lit l => simp [Stored.entries, Entry.eval, coerce_num _ _ hfit]
+    | arr rows => simp [Stored.entries, Entry.eval, List.map_map, Function.comp_def]
+    | arrE es => simp [Stored.entries]
+    | expr e =>
+      simp only at hfit
+      cases hw : e.walk with
+      | mx => simp only [hw]; simp [Stored.entries]
+      | py q =>
+        rw [hw] at hfit
+        have hv := E.walk_value e q (.inl hw)
+        simp only [hw]
+        simp [Stored.entries, Entry.eval, (hv 0 p).1, (hv 0 p).2]
+        exact coerce_num v.ptype (Py.float (Num.fin q)) hfit
+      | dm q =>
+        rw [hw] at hfit
+        have hv := E.walk_value e q (.inr hw)
+        simp only [hw]
+        by_cases hdims : v.dims.isEmpty = true
+        · simp [hdims, Stored.entries, Entry.eval, (hv 0 p).1, (hv 0 p).2]
+          exact pyCast_num v.ptype (Py.float (Num.fin q)) (hfit hdims)
+        · simp [hdims, Stored.entries, Entry.eval, (hv 0 p).1, (hv 0 p).2]
+    | dm x =>
+      simp only at hfit
+      by_cases hdims : v.dims.isEmpty = true
+      · simp [hdims, Stored.entries, Entry.eval]
+        exact pyCast_num v.ptype (Py.float (Num.fin x)) (hfit hdims)
+      · simp [hdims, Stored.entries, Entry.eval]
+
+example : (store { ptype := .int, dims := [], max := some (.expr (.mul (.num 2) (.num 3))) } .max).tag .max = "int" ∧
+    ({ ptype := .int, dims := [], max := some (.expr (.mul (.num 2) (.num 3))) } : Var).fits .max := by
+  refine ⟨by decide, ?_⟩
+  simp [Var.fits, Var.decl, E.walk, Py.fits, truncRat]
+  norm_num
+
+/-- **Layout of the metadata matrix.**  In the column of attribute `a` of a variable list, the
+    entries of variable number `i` start at `offset = Σ numel` of the variables before it: entry
+    `offset + k` is element `k` of that variable's attribute (its single element when it has only
+    one: scalar broadcast), and the column has `Σ numel` entries in all. -/
+theorem metadata_layout (vs : List Var) (hwf : ∀ v ∈ vs, v.wf) (a : AttrName) (i k : Nat) (v : Var)
+    (hv : vs[i]? = some v) (hk : k < v.numel) :
+    (column vs a).length = (vs.map Var.numel).sum ∧
+    (column vs a)[offsetOf Var.numel vs i + k]? =
+      (if ((store v a).entries a).length = 1 then ((store v a).entries a)[0]?
+       else ((store v a).entries a)[k]?) := by
+  refine ⟨column_length vs hwf a, ?_⟩
+  have := flatMap_getElem_of (fun v => v.column a) Var.numel vs
+    (fun w hw => Var.column_length w (hwf w hw) a) i k v hv hk
+  rw [show column vs a = vs.flatMap (fun v => v.column a) from rfl, this]
+  exact bcast_getElem _ _ _ hk
+
+example : offsetOf Var.numel [{ ptype := .float, dims := [2] }, { ptype := .float, dims := [] },
+    { ptype := .int, dims := [2, 3] }] 2 = 3 := by decide
+
+example : ({ ptype := .float, dims := [2], min := some (.expr (.par 0 1)), max := some (.arr [[.int 5], [.real 3]]) } : Var).wf ∧
+    ∀ a, ({ ptype := .float, dims := [2], min := some (.expr (.par 0 1)), max := some (.arr [[.int 5], [.real 3]]) } : Var).fits a := by
+  constructor
+  · intro a; cases a <;> decide
+  · intro a; cases a <;> simp [Var.fits, Var.decl, E.walk, Py.fits, Lit.toPy]
+
+/-- **The affine rebuild is exact**: for an expression that passes the affinity test,
+    `J(0)·p + f(0) = f(p)` at every parameter vector; and `J(0)·p` is a linear map of `p`
+    (so it is the product of a constant matrix `A` with `p`). -/
+theorem affine_rebuild_exact (e : E) (h : e.affine = true) :
+    (∀ p, e.rebuild p = e.eval p) ∧
+    (∀ p q, e.jvp0 (fun i => p i + q i) = e.jvp0 p + e.jvp0 q) ∧
+    (∀ c p, e.jvp0 (fun i => c * p i) = c * e.jvp0 p) :=
+  ⟨E.rebuild_eq_eval e h, E.jvp0_add e, E.jvp0_smul e⟩
+
+example : (E.div (.add (.mul (.num 3) (.par 0 1)) (.num 1)) (.num 4)).affine = true ∧
+    (E.mul (.par 0 1) (.par 1 1)).affine = false := by decide
+
+/-- **The rebuild is attempted only when it is exact.**  Whatever the number of parameters and
+    whatever the expressions, the metadata function with the rebuild equals the one without. -/
+theorem metadata_rebuild_sound (nParams : Nat) (lists : List (List Var)) (p : Nat → Rat) :
+    metadata nParams lists p = metadataDirect lists p := by
+  unfold metadata metadataDirect
+  cases hu : (decide (0 < nParams) && allAffine lists)
+  · rfl
+  · simp only [Bool.and_eq_true] at hu
+    have hall := hu.2
+    unfold allAffine at hall
+    simp only [List.all_eq_true] at hall
+    apply mapM_option_congr
+    intro vs hvs
+    have key : (casadiAttributes.map fun a => (column vs a).map fun e => e.rebuilt p)
+        = (casadiAttributes.map fun a => (column vs a).map fun e => e.eval p) := by
+      apply List.map_congr_left
+      intro a ha
+      apply List.map_congr_left
+      intro e he
+      exact Entry.rebuilt_eq_eval e (hall vs hvs a ha e he) p
+    simp only [if_true, key]
+
+example : allAffine [[{ ptype := .float, dims := [], min := some (.expr (.mul (.num 3) (.par 0 1))) }]] = true := by
+  decide
+
+/-- **The metadata function reports the declared attributes.**  For well-formed variable lists whose
+    declarations fit their types, at every parameter vector and on either code path (direct or
+    rebuilt): the function is defined, each matrix has one column per attribute in the order of
+    `CASADI_ATTRIBUTES`, and row `offset + k` of the column of attribute `a` is element `k`
+    (or the single, broadcast element) of the declared attribute of the variable — the default when
+    nothing is declared. -/
+theorem metadata_reports_declared (nParams : Nat) (lists : List (List Var)) (p : Nat → Rat)
+    (hwf : ∀ vs ∈ lists, ∀ v ∈ vs, v.wf) (hfit : ∀ vs ∈ lists, ∀ v ∈ vs, ∀ a, v.fits a) :
+    metadata nParams lists p =
+      some (lists.map fun vs => casadiAttributes.map fun a => (column vs a).map (Entry.eval p)) ∧
+    ∀ vs ∈ lists, ∀ (a : AttrName) (i k : Nat) (v : Var), vs[i]? = some v → k < v.numel →
+      ((column vs a).map (Entry.eval p))[offsetOf Var.numel vs i + k]? =
+        (let d := (declEntries v a).map (Entry.eval p)
+         if d.length = 1 then d[0]? else d[k]?) := by
+  constructor
+  · rw [metadata_rebuild_sound]
+    unfold metadataDirect
+    apply mapM_option_some
+    intro vs hvs
+    have hlen : ∀ a, ((column vs a).map fun e => e.eval p).length = (vs.map Var.numel).sum := by
+      intro a; rw [List.length_map]; exact column_length vs (hwf vs hvs) a
+    simp only [casadiAttributes, List.map_cons, List.map_nil, List.head?_cons, Option.map_some, Option.getD_some,
+      List.all_cons, List.all_nil, hlen, beq_self_eq_true, Bool.and_self, if_true]
+  · intro vs hvs a i k v hv hk
+    have hl := (metadata_layout vs (hwf vs hvs) a i k v hv hk).2
+    have hmem : v ∈ vs := List.mem_of_getElem? hv
+    have hval := attr_value v a (hfit vs hvs v hmem a) p
+    unfold Stored.values at hval
+    rw [List.getElem?_map, hl]
+    simp only
+    rw [← hval, List.length_map]
+    split <;> simp [List.getElem?_map]
+
+example : metadata 0 [[{ ptype := .float, dims := [2], min := some (.expr (.par 0 1)), max := some (.arr [[.int 5], [.real 3]]) }]] (fun _ => 7) =
+    some [[[.nan, .nan], [.fin 7, .fin 7], [.fin 5, .fin 3], [.fin 0, .fin 0], [.fin 0, .fin 0], [.fin 0, .fin 0]]] := by
+  decide
+
+end PymocaVerif.Attr
